@@ -905,6 +905,90 @@ fn storage_reuse(n: usize, out: &mut JobOut) {
     out.sample = Some(Json::obj(vec![("n", Json::Int(n as i128)), ("axes", Json::Int(axes.len() as i128))]));
 }
 
+/// Histories over *many* interpolators: A is queried, then N - 1 other interpolators are built (and
+/// dropped or kept), then B (other axis) is built and asked the same value. N runs over the places
+/// where a narrow counter of interpolators would wrap. B's answer must be the one a thread that has
+/// seen nothing else gets. One job, run alone: the number of builds between A and B is exact.
+fn many_builds(out: &mut JobOut) {
+    use ndarray::{Array1, Array2 as A2};
+    use ndarray_interp::interp1d::{cubic_spline::CubicSpline, Interp1DBuilder};
+    use ndarray_interp::interp2d::Interp2DBuilder;
+    let xa: Vec<f64> = (0..60).map(|i| i as f64).collect();
+    let xb: Vec<f64> = vec![0.0, 1.0, 2.0, 3.0, 60.0];
+    let ya: Vec<f64> = xa.iter().map(|v| 0.5 * v * v - 3.0 * v).collect();
+    let yb: Vec<f64> = xb.iter().map(|v| (0.7 * v).sin() * 4.0 + v).collect();
+    let qs = [6.5, 50.25, 3.0];
+    let ns: [usize; 12] = [1, 2, 3, 255, 256, 257, 511, 512, 65535, 65536, 65537, 131072];
+    for flavor in ["Linear", "CubicSpline", "Bilinear"] {
+        let ask = |x: &[f64], y: &[f64], q: f64| -> Result<u64, String> {
+            let r = match flavor {
+                "Linear" => Interp1DBuilder::new(Array1::from(y.to_vec())).x(Array1::from(x.to_vec())).build().map_err(|e| e.to_string())?.interp_scalar(q).map_err(|e| e.to_string())?,
+                "CubicSpline" => Interp1DBuilder::new(Array1::from(y.to_vec())).x(Array1::from(x.to_vec())).strategy(CubicSpline::new()).build().map_err(|e| e.to_string())?.interp_scalar(q).map_err(|e| e.to_string())?,
+                _ => {
+                    let z = A2::from_shape_fn((x.len(), 2), |(i, j)| y[i] * (1 + j) as f64);
+                    Interp2DBuilder::new(z).x(Array1::from(x.to_vec())).y(Array1::from(vec![0.0, 2.0])).build().map_err(|e| e.to_string())?.interp_scalar(q, 0.5).map_err(|e| e.to_string())?
+                }
+            };
+            Ok(r.to_bits())
+        };
+        let filler = |keep: &mut Vec<Box<dyn std::any::Any>>, keep_alive: bool| match flavor {
+            "Bilinear" => {
+                let f = Interp2DBuilder::new(A2::<f64>::zeros((2, 2))).build().expect("valid");
+                if keep_alive {
+                    keep.push(Box::new(f));
+                }
+            }
+            _ => {
+                let f = Interp1DBuilder::new(Array1::from(vec![0.0, 1.0])).build().expect("valid");
+                if keep_alive {
+                    keep.push(Box::new(f));
+                }
+            }
+        };
+        for &q in &qs {
+            let reference = std::thread::scope(|s| s.spawn(|| ask(&xb, &yb, q)).join().expect("reference thread"));
+            out.states += 1;
+            for &n in &ns {
+                for keep_alive in [false, true] {
+                    if keep_alive && n > 70000 {
+                        continue;
+                    }
+                    let got = catch(|| {
+                        let first = ask(&xa, &ya, q);
+                        let mut keep: Vec<Box<dyn std::any::Any>> = vec![];
+                        for _ in 1..n {
+                            filler(&mut keep, keep_alive);
+                        }
+                        (first, ask(&xb, &yb, q))
+                    });
+                    out.evals += 1;
+                    out.nontrivial += 1;
+                    out.transitions += n as u64;
+                    let ok = matches!(&got, Ok((_, b)) if *b == reference);
+                    out.outcome(format!("many-builds:{}", if ok { "same" } else { "differs" }));
+                    if !ok {
+                        let show = |r: &Result<u64, String>| match r {
+                            Ok(b) => format!("{:e}", f64::from_bits(*b)),
+                            Err(e) => format!("Err({e})"),
+                        };
+                        let text = match &got {
+                            Ok((_, b)) => show(b),
+                            Err(p) => format!("panic: {p}"),
+                        };
+                        out.violate(
+                            format!("many-builds:{flavor}:n{n}"),
+                            format!("{flavor}: interpolator B asked {q} answers {text} when it is the {n}-th interpolator built after another interpolator A was asked {q} on the same thread (fillers {}), but {} on a thread that has seen nothing else", if keep_alive { "kept alive" } else { "dropped at once" }, show(&reference)),
+                            Json::obj(vec![("flavor", Json::str(flavor)), ("q", Json::Num(q)), ("builds_between", Json::Int(n as i128)), ("keep_alive", Json::Bool(keep_alive))]),
+                        );
+                        break;
+                    }
+                }
+            }
+        }
+    }
+    out.sample = Some(Json::str("A asked q; N-1 builds; B built and asked q; N in {1,2,3,255,256,257,511,512,65535,65536,65537,131072}"));
+}
+
 #[derive(Clone, Debug)]
 enum Job {
     SendSync,
@@ -1008,7 +1092,13 @@ fn body(ctx: &Ctx) -> (Summary, Meta) {
     // histories first: they contain caught subject panics, and shuttle installs a process-wide
     // panic hook with its first runner
     let (hist_jobs, sched_jobs): (Vec<Job>, Vec<Job>) = jobs.into_iter().partition(|j| !matches!(j, Job::Sched(_)));
-    let mut sum = run_jobs(ctx, "send-sync+histories", &hist_jobs, key, work);
+    // alone, before anything else builds interpolators on other threads
+    let mut sum = run_jobs(ctx, "histories-over-many-interpolators", &[()], |_| "many-builds".to_string(), |_| {
+        let mut out = JobOut::default();
+        many_builds(&mut out);
+        out
+    });
+    sum.merge(run_jobs(ctx, "send-sync+histories", &hist_jobs, key, work));
     sum.merge(run_jobs(ctx, "schedules", &sched_jobs, key, work));
     // (c') the same kind of programs on the instrumented build (every atomic access and lock
     // operation of the subject is a scheduling point): a separate binary, see mc/c17s
@@ -1065,7 +1155,7 @@ fn body(ctx: &Ctx) -> (Summary, Meta) {
     }));
     let _ = (Ix1::default(), Ix3::default(), ArrayD::<f64>::zeros(IxDyn(&[1])));
     let meta = Meta {
-        rule: format!("(a) Send and Sync are probed for 37 instantiations over owned / view / shared / copy-on-write storage; (b) for each of 8 interpolators every history of at most {depth} operations over a 16-op alphabet (all entry points; knot, interior, other interval, out of range -> Err, NaN -> Err, late failure in a batch, wrongly shaped buffer -> panic, ops on a sibling interpolator with another axis) is executed on a fresh interpolator: every occurrence of an op must return the bits it returns on a fresh interpolator (the Debug fingerprint of the interpolator is recorded after every step; on the current tree it never changes, i.e. the explored state space is a single state with self loops); (c) for each interpolator every ordered pair of a 5-op alphabet as a 2-thread program, plus 3-thread programs (thorough: plus 2x2-op programs), explored by shuttle's exhaustive DFS over all interleavings at the hook scheduling points; every result must equal the sequential answer; the DFS is run twice and the schedule counts compared; (c') the same programs (Linear, CubicSpline, Bilinear, Periodic+extrapolate, and a 70-knot axis) on an *instrumented build* of the current sources in which every std::sync primitive is shuttle's, so that every atomic access and lock operation is a scheduling point as well (every interleaving when the program is small, else every schedule with at most 2 preemptions). Non-trivial: history mixing failing and successful calls / every schedule program."),
+        rule: format!("(0) histories over many interpolators (run alone, so the count is exact): A is asked q, N - 1 further interpolators are built (dropped at once / kept alive), B over another axis is built and asked q, N in {{1,2,3,255,256,257,511,512,65535,65536,65537,131072}}, Linear / CubicSpline / Bilinear, 3 values of q; B must answer bit for bit what a fresh thread gets; (a) Send and Sync are probed for 37 instantiations over owned / view / shared / copy-on-write storage; (b) for each of 8 interpolators every history of at most {depth} operations over a 16-op alphabet (all entry points; knot, interior, other interval, out of range -> Err, NaN -> Err, late failure in a batch, wrongly shaped buffer -> panic, ops on a sibling interpolator with another axis) is executed on a fresh interpolator: every occurrence of an op must return the bits it returns on a fresh interpolator (the Debug fingerprint of the interpolator is recorded after every step; on the current tree it never changes, i.e. the explored state space is a single state with self loops); (c) for each interpolator every ordered pair of a 5-op alphabet as a 2-thread program, plus 3-thread programs (thorough: plus 2x2-op programs), explored by shuttle's exhaustive DFS over all interleavings at the hook scheduling points; every result must equal the sequential answer; the DFS is run twice and the schedule counts compared; (c') the same programs (Linear, CubicSpline, Bilinear, Periodic+extrapolate, and a 70-knot axis) on an *instrumented build* of the current sources in which every std::sync primitive is shuttle's, so that every atomic access and lock operation is a scheduling point as well (every interleaving when the program is small, else every schedule with at most 2 preemptions). Non-trivial: history mixing failing and successful calls / every schedule program."),
         bounds: format!("{njobs} jobs: 1 Send/Sync table, {} history roots (depth {depth}: {} histories per interpolator), {} schedule programs; tier {}", KINDS.len() * NOPS, (1..=depth).map(|d| NOPS.pow(d as u32)).sum::<usize>(), njobs - 1 - KINDS.len() * NOPS, ctx.tier.name()),
         assumptions: vec![
             "scheduling points: the hook points (entry, before/after the lookup, inside the lookup, exit, per batch element) and, on the instrumented build, every std::sync atomic / lock operation; plain (non-atomic) shared memory cannot exist in safe code; thread_local! state is not modelled per simulated thread".into(),
